@@ -5,7 +5,7 @@
     history of up to 6 operations, sizes 0..3, capacities 0..4, fixed slice and growable target.
 (G) every operation path of length <= 4 (quick) / <= 5 (thorough) is printed with the outcome and post-state of every
     step and executed lock-step on SliceOutputTarget (guard-padded arena), VecOutputTarget (clean and dirty spare
-    capacity) and SliceInputSource (three API variants).
+    capacity) and SliceInputSource (four API variants).
 (T) seeded random histories up to length 200 with sizes up to 4 KiB on the real targets, validated by Trace_Buffers.
 """
 RULE = ("paths = every sequence of {write byte, write k, reserve k, write k into reservation r, peek/read k} outcomes "
